@@ -488,3 +488,50 @@ func (c *Cond) Broadcast() {
 	}
 	c.waiters = nil
 }
+
+// Pool stands in for sync.Pool.  Which item Get returns is a source of
+// nondeterminism in the real one (per-P caches, the garbage collector); here it
+// is always the item put back last, the choice most likely to expose a user
+// that still holds on to what it has put back.
+type Pool struct {
+	New   func() interface{}
+	items []interface{}
+	real  sync.Pool
+}
+
+func (p *Pool) Get() interface{} {
+	if current.Load() == nil {
+		if x := p.real.Get(); x != nil {
+			return x
+		}
+		if p.New != nil {
+			return p.New()
+		}
+		return nil
+	}
+	Yield("Pool.Get")
+	if n := len(p.items); n > 0 {
+		x := p.items[n-1]
+		p.items[n-1] = nil
+		p.items = p.items[:n-1]
+		raceAcquire(unsafe.Pointer(p))
+		return x
+	}
+	if p.New != nil {
+		return p.New()
+	}
+	return nil
+}
+
+func (p *Pool) Put(x interface{}) {
+	if x == nil {
+		return
+	}
+	if current.Load() == nil {
+		p.real.Put(x)
+		return
+	}
+	Yield("Pool.Put")
+	raceReleaseMerge(unsafe.Pointer(p))
+	p.items = append(p.items, x)
+}
